@@ -297,7 +297,13 @@ func (v *FnView) expandBoolAliases(facts []Fact) []Fact {
 			decompose(d.(ast.Expr), facts[i].Truth, facts[i].At, &sub)
 			facts = append(facts, sub...)
 		case *ast.CallExpr:
-			if _, okc := factCmp(Fact{Atom: d, Truth: true}); okc {
+			// a comparison method, or any call with a single boolean result (`active := k.IsActive(…)`); a
+			// comma-ok / (bool, error) call has a tuple type and stays a call outcome
+			_, okc := factCmp(Fact{Atom: d, Truth: true})
+			if bt, isB := v.Info.TypeOf(d).(*types.Basic); isB && bt.Kind() == types.Bool {
+				okc = true
+			}
+			if okc {
 				facts = append(facts, Fact{Atom: d, Truth: facts[i].Truth, At: facts[i].At})
 			}
 		}
